@@ -117,7 +117,27 @@ def c_single(ctx, args):
     return None
 
 
-CHECKS = {'single': c_single, 'rot_corr': c_rot_corr, 'rot_dense': c_rot_dense, 'seq_corr': c_seq_corr, 'map_corr': c_map_corr,
+def c_poly_small(ctx, args):
+    """every term of a polynomial is rotated, whatever its coefficient: strings and phases as for the list of its terms, coefficients untouched -- in tiny units and with exact zeros too"""
+    be, g, mask, terms = args          # terms [[str, phase, [re, im]], ...]
+    N = len(terms[0][0]) // 2
+    if be == 'np':
+        import vlib.impl_np as M, pyclifford as lib
+        poly = lib.PauliPolynomial(M.GS([t[0] for t in terms], 2 * N), np.array([t[1] for t in terms], dtype=np.int_)).set_cs(np.array([complex(*t[2]) for t in terms]))
+    else:
+        import torch, vlib.impl_torch as M, torchclifford as lib
+        poly = lib.paulialg.PauliPolynomial(M.GS([t[0] for t in terms], 2 * N), M.PS([t[1] for t in terms])).set_cs(torch.tensor([complex(*t[2]) for t in terms], dtype=torch.complex128))
+    ref = impl(be).OPS['rotate'](g, mask, [[t[0], t[1]] for t in terms])
+    r = poly.rotate_by(M.P(g), mask=M.optmask(mask))
+    r = r if r is not None else poly
+    got = [[[int(v) for v in gg], int(round(float(p))) % 4] for gg, p in zip(r.gs, r.ps)]
+    cs = [complex(c) for c in r.cs]
+    if got != [[x[0], x[1] % 4] for x in ref] or cs != [complex(*t[2]) for t in terms]:
+        return {'kind': 'oracle', 'where': '%s:rotate_by on a polynomial with small coefficients differs from the rotation of its terms' % be, 'observed': [got, [[c.real, c.imag] for c in cs]], 'expected': [ref, [t[2] for t in terms]], 'tags': ['poly_small', be]}
+    return None
+
+
+CHECKS = {'poly_small': c_poly_small, 'single': c_single, 'rot_corr': c_rot_corr, 'rot_dense': c_rot_dense, 'seq_corr': c_seq_corr, 'map_corr': c_map_corr,
           'map_acts': c_map_acts, 'state_corr': c_state_corr, 'ctor_fresh': __import__('props.C17', fromlist=['c_ctor_fresh']).c_ctor_fresh}
 
 
@@ -165,6 +185,13 @@ def run(ctx):
         for be in backends:
             N = rng.randint(1, 3)
             do(ctx, 'rot_corr', [be, gen.rpauli(rng, N, herm=True, nonzero=True), None, gen.rplist(rng, N, L)], nontrivial=('long2', be, L))
+    for it in range(int(40 * B)):
+        N = rng.randint(1, 4)
+        n = rng.randint(1, N)
+        mask = None if n == N else gen.rmask(rng, N, n)[0]
+        unit = rng.choice([2.0 ** -40, 2.0 ** -50, 2.0 ** -24, 1.0])
+        terms = [[gen.rstr(rng, N), rng.randint(0, 3), [rng.choice([1, -1, 2, 0, 0.5]) * unit, rng.choice([0, 0, 1]) * unit]] for _ in range(rng.randint(1, 5))]
+        do(ctx, 'poly_small', [backends[it % 2], gen.rpauli(rng, n, herm=True, nonzero=True), mask, terms], nontrivial=('ps', it))
     # SPARSE generators on wide registers, unmasked, either sign
     for N in gen.BIG:
         for be in backends:
